@@ -28,6 +28,9 @@ def run_suite(suite, timeout=7200, workers=None, xmx="16g"):
         # C15: both reach a boundary Running but the number of edges is not the documented cost (whatever else differs)
         if st == est == "Running" and tag == "done" and rec["edges"] != rec["isa_cost"]:
             cost.append(rec)
+        # ... or the next boundary is never reached although the instruction has a documented (finite) cost
+        if tag == "stuck" and est == "Running":
+            cost.append(rec)
         # C01: anything but a pure cost difference
         if not (st == est == "Running" and tag == "done" and rec["diff"] == "{}"):
             sem.append(rec)
